@@ -6,6 +6,7 @@ with exactly the converted values of the keys present in the document.
 import DW.Model.Load
 import DW.Model.LoadV1
 import DW.Lemmas.V1
+import DW.Lemmas.KeyLoop
 
 namespace DW.Props.C09
 open DW
@@ -139,6 +140,179 @@ theorem C09_success_only_if_complete (ci : ClassInfo) (kwargs : List (S × PyVal
   · exact hm
   · rw [C09_missing_exact ci kwargs o hc hm] at h
     simp at h
+
+
+/-! ### the document-level statement (default engine): deleting keys from a document that loads -/
+
+theorem buildFields_initFalse (kw : List (S × PyVal)) : ∀ (fs : List FieldInfo) (out : List (S × PyVal)),
+    buildFields kw fs = .ok out → ∀ f ∈ fs, f.init = false → f.dflt.isSome = true ∨ f.postInit.isSome = true
+  | [], _, _, f, hf, _ => by simp at hf
+  | g :: r, out, h, f, hf, hi => by
+    have hrest : ∃ out', buildFields kw r = .ok out' := by
+      simp only [buildFields] at h
+      split at h
+      · cases hb : buildFields kw r with
+        | error e => simp [hb, bind, Except.bind] at h
+        | ok o => exact ⟨o, rfl⟩
+      · cases hb : buildFields kw r with
+        | error e => simp [hb, bind, Except.bind] at h
+        | ok o => exact ⟨o, rfl⟩
+      · split at h
+        · cases hb : buildFields kw r with
+          | error e => simp [hb, bind, Except.bind] at h
+          | ok o => exact ⟨o, rfl⟩
+        · simp at h
+    obtain ⟨out', hout'⟩ := hrest
+    simp only [List.mem_cons] at hf
+    rcases hf with rfl | hf
+    · simp only [buildFields, hi, Bool.false_eq_true, if_false] at h
+      cases hd : f.dflt with
+      | some d => simp
+      | none =>
+        cases hp : f.postInit with
+        | some l => simp
+        | none => simp [hd, hp] at h
+    · exact buildFields_initFalse kw r out' hout' f hf hi
+
+theorem buildFields_total (kw : List (S × PyVal)) : ∀ (fs : List FieldInfo),
+    (∀ f ∈ fs, f.init = false → f.dflt.isSome = true ∨ f.postInit.isSome = true) →
+    (∀ f ∈ fs, f.init = true → f.dflt.isSome = true ∨ (kw.map (·.1)).contains f.name = true) →
+    ∃ out, buildFields kw fs = .ok out
+  | [], _, _ => ⟨[], rfl⟩
+  | f :: r, h1, h2 => by
+    obtain ⟨out, hout⟩ := buildFields_total kw r (fun g hg => h1 g (by simp [hg])) (fun g hg => h2 g (by simp [hg]))
+    simp only [buildFields, hout, bind, Except.bind, pure, Except.pure]
+    cases hi : f.init with
+    | false =>
+      simp only [Bool.false_eq_true, if_false]
+      rcases h1 f (by simp) hi with hd | hp
+      · obtain ⟨d, hd⟩ := Option.isSome_iff_exists.1 hd
+        simp [hd]
+      · obtain ⟨l, hl⟩ := Option.isSome_iff_exists.1 hp
+        cases hd : f.dflt <;> simp [hl]
+    | true =>
+      simp only [if_true]
+      cases hfind : kw.reverse.find? (fun p => p.1 == f.name) with
+      | some p => simp
+      | none =>
+        rcases h2 f (by simp) hi with hd | hc
+        · obtain ⟨d, hd⟩ := Option.isSome_iff_exists.1 hd
+          simp [hd]
+        · exfalso
+          simp only [List.contains_eq_mem, List.mem_map, decide_eq_true_eq] at hc
+          obtain ⟨q, hq, hqn⟩ := hc
+          have := List.find?_eq_none.1 hfind q (by simpa using hq)
+          simp [hqn] at this
+
+theorem finish_noCatchAll (ci : ClassInfo) (kw : List (S × PyVal)) (ca : List (PyVal × PyVal)) (o o' : JVal) (hc : noCatchAll ci) :
+    finishClass ci kw ca o = finishClass ci kw [] o' := by
+  unfold noCatchAll at hc
+  simp only [finishClass, withCatchAll, hc]
+
+open DW.KeyLoop in
+/-- exactly which names the error lists: the constructor fields without default to which no key of the document resolves -/
+theorem C09_absent_iff (eff : MetaCfg) (ci : ClassInfo) (kvs : List (S × JVal)) (n : S) :
+    n ∈ requiredMissing ci (resolvedFields eff ci kvs) ↔
+      ∃ f ∈ ci.fields, f.name = n ∧ f.init = true ∧ f.dflt = none ∧ n ∉ resolvedFields eff ci kvs := by
+  unfold requiredMissing missingInit
+  simp only [List.mem_map, List.mem_filter, Bool.and_eq_true, Option.isNone_iff_eq_none, Bool.not_eq_true',
+    List.contains_eq_mem, decide_eq_false_iff_not]
+  constructor
+  · rintro ⟨f, ⟨hf, ⟨hi, hd⟩, hn⟩, rfl⟩
+    exact ⟨f, hf, rfl, hi, hd, hn⟩
+  · rintro ⟨f, hf, rfl, hi, hd, hn⟩
+    exact ⟨f, ⟨hf, ⟨hi, hd⟩, hn⟩, rfl⟩
+
+open DW.KeyLoop in
+/-- **C09 (default engine, at the level of documents).** Take any class without catch-all field, any per-field loaders and
+any effective Meta, a document `kvs` that loads, and delete any set of keys from it (`keep` says which stay). Let
+`absent` be the constructor fields without default to which no remaining key resolves (`C09_absent_iff`). Then the
+sub-document loads exactly when `absent` is empty: if it is not, the outcome is MissingFields naming the class and exactly
+`absent`, in declaration order; if it is, the outcome is an instance with exactly the declared fields in which every field
+holds the converted value of the last remaining key that resolves to it, else its declared default (a fresh product),
+else its `__post_init__` value. No other outcome exists: conversions that succeeded in the whole document succeed in the
+part, and nothing a deleted key contributed is seen. -/
+theorem C09_key_deletion (fl : S → JVal → LRes) (eff : MetaCfg) (ci : ClassInfo) (kvs : List (S × JVal)) (hc : noCatchAll ci)
+    (x : PyVal) (hfull : loadClassWith fl eff ci (.dict kvs) = .ok x) (keep : S → Bool) :
+    let kvs' := kvs.filter (fun kv => keep kv.1)
+    let absent := requiredMissing ci (resolvedFields eff ci kvs')
+    (absent ≠ [] → loadClassWith fl eff ci (.dict kvs') = .error (.missingFields ci.name absent)) ∧
+    (absent = [] → ∃ out, loadClassWith fl eff ci (.dict kvs') = .ok (.inst ci out) ∧
+        out.map (·.1) = ci.fields.map (·.name) ∧
+        ∀ p ∈ out, ∃ f ∈ ci.fields, p.1 = f.name ∧ fieldValue (loadedPairs fl eff ci kvs') f = some p.2) := by
+  intro kvs' absent
+  -- the whole document: the key loop got through, and the constructor step succeeded
+  simp only [loadClassWith, bind, Except.bind] at hfull
+  cases hk : loadKeysWith fl eff ci kvs with
+  | error e => simp [hk] at hfull
+  | ok r =>
+    obtain ⟨kw, ca⟩ := r
+    simp only [hk] at hfull
+    rw [finish_noCatchAll ci kw ca _ (.dict kvs) hc] at hfull
+    obtain ⟨⟨kw', ca'⟩, hk'⟩ := loadKeysWith_filter fl eff ci keep kvs (kw, ca) hk
+    obtain ⟨hkw', hnames'⟩ := loadKeysWith_ok fl eff ci kvs' kw' ca' hk'
+    have hload : loadClassWith fl eff ci (.dict kvs') = finishClass ci kw' [] (.dict kvs') := by
+      show loadClassWith fl eff ci (.dict (kvs.filter (fun kv => keep kv.1))) = _
+      simp only [loadClassWith, bind, Except.bind, hk']
+      exact finish_noCatchAll ci kw' ca' _ _ hc
+    refine ⟨?_, ?_⟩
+    · intro hne
+      rw [hload]
+      have := C09_missing_exact ci kw' (.dict kvs') hc (by rw [hnames']; exact hne)
+      rw [this, hnames']
+    · intro he
+      -- init=False fields are filled as they were in the whole document; constructor fields are present or defaulted
+      have hfull' := hfull
+      unfold noCatchAll at hc
+      simp only [finishClass, withCatchAll, hc] at hfull'
+      have hinitF : ∀ f ∈ ci.fields, f.init = false → f.dflt.isSome = true ∨ f.postInit.isSome = true := by
+        split at hfull'
+        · cases hb : buildFields kw ci.fields with
+          | error e => simp [hb, bind, Except.bind] at hfull'
+          | ok o => exact buildFields_initFalse kw ci.fields o hb
+        · simp at hfull'
+      have hinitT : ∀ f ∈ ci.fields, f.init = true → f.dflt.isSome = true ∨ (kw'.map (·.1)).contains f.name = true := by
+        intro f hf hi
+        cases hd : f.dflt with
+        | some d => simp
+        | none =>
+          right
+          rw [hnames']
+          cases hcon : (resolvedFields eff ci kvs').contains f.name with
+          | true => rfl
+          | false =>
+            have : f.name ∈ absent := by
+              show f.name ∈ requiredMissing ci (resolvedFields eff ci kvs')
+              rw [C09_absent_iff]
+              exact ⟨f, hf, rfl, hi, hd, by simpa using hcon⟩
+            rw [he] at this
+            simp at this
+      obtain ⟨out, hout⟩ := buildFields_total kw' ci.fields hinitF hinitT
+      have hfin : finishClass ci kw' [] (.dict kvs') = .ok (.inst ci out) := by
+        have hm : missingInit ci (kw'.map (·.1)) = [] := by
+          have : requiredMissing ci (kw'.map (·.1)) = [] := by rw [hnames']; exact he
+          simpa [requiredMissing] using this
+        simp only [finishClass, withCatchAll, hc, hm, hout, bind, Except.bind, pure, Except.pure]
+      refine ⟨out, by rw [hload, hfin], ?_⟩
+      have := build_spec kw' ci.fields out hout
+      rw [hkw'] at this
+      exact this
+
+/-- the hypotheses of `C09_key_deletion` are met, and both outcomes occur: for `class P: a: int; tags: list = field(default_factory=list)`
+the document `{'a': 1, 'tags': 2}` loads; without `'a'` the error lists exactly `a`; without `'tags'` the field holds a
+fresh `[]`. -/
+def exP : ClassInfo :=
+  { name := "P".toList, fields := [{ name := "a".toList }, { name := "tags".toList, dflt := some .emptyList, isFactory := true }] }
+def exFl : S → JVal → LRes := fun _ v => .ok v.toPy
+def exDoc : List (S × JVal) := [("a".toList, .int 1), ("tags".toList, .int 2)]
+
+theorem C09_key_deletion_example :
+    noCatchAll exP ∧
+    loadClassWith exFl {} exP (.dict exDoc) = .ok (.inst exP [("a".toList, .int 1), ("tags".toList, .int 2)]) ∧
+    loadClassWith exFl {} exP (.dict (exDoc.filter (fun kv => kv.1 != "a".toList))) = .error (.missingFields "P".toList ["a".toList]) ∧
+    loadClassWith exFl {} exP (.dict (exDoc.filter (fun kv => kv.1 != "tags".toList))) =
+      .ok (.inst exP [("a".toList, .int 1), ("tags".toList, .seq .list [])]) := by
+  refine ⟨by unfold noCatchAll; decide, by rfl, by rfl, by rfl⟩
 
 /-! ### v1 engine
 
